@@ -7,7 +7,7 @@ import nvmjobs
 
 def crc_jobs(tier):
     jobs = []
-    def cj(name, d, unw, to=300):
+    def cj(name, d, unw, to=900):
         return Job(name=name, harness='crc_algebra.c', defines=d, unwind=unw, unwindset=['crc32_init.0:9', 'crc32_init.1:257'],
                    flags=['--max-field-sensitivity-array-size', '256'], timeout=to, group='crc_algebra', must_witness=['done'],
                    desc={'lemma': name, 'params': d})
